@@ -19,6 +19,7 @@ import (
 
 	"github.com/smart-core-os/sc-api/go/traits"
 
+	"github.com/smart-core-os/sc-golang/pkg/resource"
 	"github.com/smart-core-os/sc-golang/pkg/router"
 	"github.com/smart-core-os/sc-golang/pkg/trait/hailpb"
 	"github.com/smart-core-os/sc-golang/pkg/trait/vendingpb"
@@ -28,8 +29,9 @@ import (
 
 // serverEntry is filled by the discovery generator (zz_servers_gen_test.go).
 type serverEntry struct {
-	Name      string
-	NewServer func() any
+	Name         string
+	TakesOptions bool // the model constructor accepts resource options (clock, ...)
+	NewServer    func(opts ...resource.Option) any
 	Desc      *grpc.ServiceDesc
 	NewRouter func() any
 	Wrap      func(server any) any
@@ -230,7 +232,15 @@ func runTriple(t *rapid.T, e serverEntry, tr triple) string {
 	// handlers of an earlier case (its streams are cancelled, but a handler may not even have started yet under load)
 	// must be gone, or their late subscriptions would be mistaken for this case's
 	observable := lib.WaitGoroutines(0, 5*time.Second, "pkg/wrap.(*wrapper).NewStream.func", pullGoroutines[0], pullGoroutines[1]) == 0
-	srv := e.NewServer()
+	// the model's clock: the wall clock, or one that is stepped forwards and backwards between readings
+	var modelOpts []resource.Option
+	clockDesc := "wall clock"
+	if e.TakesOptions && rapid.IntRange(0, 2).Draw(t, "jumpClock") == 0 {
+		jc := lib.DrawJumpClock(t, "clock")
+		modelOpts = append(modelOpts, resource.WithClock(jc))
+		clockDesc = fmt.Sprintf("clock stepping by %v", jc.Offsets)
+	}
+	srv := e.NewServer(modelOpts...)
 	r := e.NewRouter()
 	r.(router.Router).Add(deviceName, e.Wrap(srv))
 	conn := wrap.ServerToClient(*e.Desc, r)
@@ -241,7 +251,10 @@ func runTriple(t *rapid.T, e serverEntry, tr triple) string {
 	ctx, cancelAll := context.WithCancel(context.Background())
 	defer cancelAll()
 	method := func(m protoreflect.MethodDescriptor) string { return fmt.Sprintf("/%s/%s", tr.svc.FullName(), m.Name()) }
-	var hist []string
+	hist := []string{"model uses the " + clockDesc}
+	if clockDesc != "wall clock" {
+		lib.Ev.Class("model clock steps forwards and backwards")
+	}
 	fail := func(format string, a ...any) {
 		t.Fatalf("%s %v: %s\nhistory:\n  %s", e.Name, tr, fmt.Sprintf(format, a...), strings.Join(hist, "\n  "))
 	}
